@@ -41,6 +41,8 @@ pub fn run(a: &Args, prop: &str) -> i32 {
         op: String,
         payload: Value,
         expected: Option<Value>,
+        /// the same with `__typename` kept at object positions (allowed, not demanded)
+        expected_alt: Option<Value>,
         corruption: Option<Corruption>,
         nontrivial: bool,
     }
@@ -67,18 +69,19 @@ pub fn run(a: &Args, prop: &str) -> i32 {
                     rep.count_n("payload:absent_nullable_keys", st.absent as u64);
                     rep.count_n("payload:integer_ids", st.int_ids as u64);
                     rep.count_n("payload:objects", st.objects as u64);
-                    vectors.push(Vector { case: c.id, module: mi, op: op_struct.clone(), payload, expected: Some(expected), corruption: None, nontrivial });
+                    let expected_alt = pg.expected_keeping_object_typename(op, &payload);
+                    vectors.push(Vector { case: c.id, module: mi, op: op_struct.clone(), payload, expected: Some(expected), expected_alt: Some(expected_alt), corruption: None, nontrivial });
                 } else {
                     let mut cs = pg.corruptions(op, &payload, c.opts.other_variant);
                     rng.shuffle(&mut cs);
                     // "a known __typename always selects its own variant": the uncorrupted payload itself, when it has
                     // abstract positions (cases in a known-finding class of C01 are left to C01)
-                    if st.abstract_positions > 0 && c01_finding_class(&c.schema, &c.doc).is_none() {
+                    if st.abstract_positions > 0 && c01_finding_class_op(&c.schema, &c.doc, Some(op)).is_none() {
                         cs.insert(0, Corruption { kind: "none/known-typename", path: String::new(), payload: payload.clone(), must_accept: Some(true), expect_typename: None });
                     }
                     for cor in cs.into_iter().take(corruptions_per_payload) {
                         let nontrivial = cor.path.matches('/').count() > 1;
-                        vectors.push(Vector { case: c.id, module: mi, op: op_struct.clone(), payload: cor.payload.clone(), expected: None, corruption: Some(cor), nontrivial });
+                        vectors.push(Vector { case: c.id, module: mi, op: op_struct.clone(), payload: cor.payload.clone(), expected: None, expected_alt: None, corruption: Some(cor), nontrivial });
                     }
                 }
             }
@@ -102,13 +105,13 @@ pub fn run(a: &Args, prop: &str) -> i32 {
             (None, Reply::Ok(reser)) => {
                 let got = drop_nulls(&canon_numbers(reser));
                 let want = v.expected.clone().unwrap_or(Value::Null);
-                if got != want {
-                    let class = c01_finding_class(&c.schema, &c.doc).unwrap_or("conforming-payload-not-preserved");
+                if got != want && Some(&got) != v.expected_alt.as_ref() {
+                    let class = c01_finding_class_op(&c.schema, &c.doc, c.doc.ops.get(v.module)).unwrap_or("conforming-payload-not-preserved");
                     rep.fail(class, case_json(json!({"expected_reserialization": want, "got": got})));
                 }
             }
             (None, Reply::Err(e)) => {
-                let class = c01_finding_class(&c.schema, &c.doc).unwrap_or("conforming-payload-rejected");
+                let class = c01_finding_class_op(&c.schema, &c.doc, c.doc.ops.get(v.module)).unwrap_or("conforming-payload-rejected");
                 rep.fail(class, case_json(json!({"error": e})))
             }
             (None, Reply::Other(o)) => rep.internal.push(format!("consumer reply: {}", o)),
